@@ -28,6 +28,7 @@ type Loader struct {
 	allFuncs  map[string]*ssa.Function
 	LoadMs    int64
 	Known     *knownSet
+	privCache map[*ssa.Alloc]bool
 	constGlob map[*ssa.Global]bool
 	scanned   map[*ssa.Package]bool
 }
@@ -295,4 +296,66 @@ func (l *Loader) typesInfoFor(fn *ssa.Function) (*types.Package, *types.Info) {
 		return nil, nil
 	}
 	return res.Types, res.TypesInfo
+}
+
+
+// privateAlloc: a variable go/ssa allocates on the heap (captured by a closure
+// or address-taken) whose address nevertheless only flows into loads, stores,
+// field/index address computations and bindings of closures (recursively).
+// No callee can reach it, so it is kept as a cell (DESIGN 4.3, 4.6).
+func (l *Loader) privateAlloc(a *ssa.Alloc) bool {
+	if l.privCache == nil {
+		l.privCache = map[*ssa.Alloc]bool{}
+	}
+	if v, ok := l.privCache[a]; ok {
+		return v
+	}
+	seen := map[ssa.Value]bool{}
+	var ok func(v ssa.Value) bool
+	ok = func(v ssa.Value) bool {
+		if seen[v] {
+			return true
+		}
+		seen[v] = true
+		refs := v.Referrers()
+		if refs == nil {
+			return false
+		}
+		for _, r := range *refs {
+			switch x := r.(type) {
+			case *ssa.Store:
+				if x.Val == v {
+					return false // the address itself is stored somewhere
+				}
+			case *ssa.UnOp:
+				if x.Op != token.MUL {
+					return false
+				}
+			case *ssa.FieldAddr:
+				if !ok(x) {
+					return false
+				}
+			case *ssa.IndexAddr:
+				if !ok(x) {
+					return false
+				}
+			case *ssa.DebugRef:
+			case *ssa.MakeClosure:
+				fn := x.Fn.(*ssa.Function)
+				for i, b := range x.Bindings {
+					if b == v {
+						if i >= len(fn.FreeVars) || !ok(fn.FreeVars[i]) {
+							return false
+						}
+					}
+				}
+			default:
+				return false
+			}
+		}
+		return true
+	}
+	res := ok(a)
+	l.privCache[a] = res
+	return res
 }
